@@ -734,6 +734,12 @@ func ruleC10(c *Ctx, r *Result) {
 						guardedByEOF = true
 					}
 				}
+				if !guardedByEOF {
+					// the update may live in a helper that tests the end of file itself
+					if g := site.Common().StaticCallee(); g != nil && g.Blocks != nil && shortPkg(fnPkgPath(g)) == "hdf5" {
+						guardedByEOF = c.writesGuardedByEOF(g)
+					}
+				}
 				r.Check(guardedByEOF, "C10.3", c.Name(cl)+"#"+n, c.InstrPos(site), "a write in Close is conditional on the allocator's end of file having moved during the session")
 			}
 		}
@@ -1727,4 +1733,43 @@ func init() {
 			r.Hold("C04.9", "module#no-release-of-kept-objects", "", "no function releases the pooled buffers of an object it was handed")
 		}
 	})
+}
+
+// writesGuardedByEOF: every call in fn that can reach a file write lies on the side of a comparison involving the allocator's
+// end of file on which the two differ (`if eof != recorded { write }` or `if eof == recorded { return }; write`).
+func (c *Ctx) writesGuardedByEOF(fn *ssa.Function) bool {
+	n := 0
+	for _, site := range callsIn(fn) {
+		nm := c.calleeName(site)
+		writes := isFileWritePrimitive(nm) && nm != "writer.FileWriter.Flush"
+		if !writes {
+			for _, g := range c.Callees(site) {
+				if libPackage(fnPkgPath(g)) && c.reachesCallee(g, func(x string) bool { return isFileWritePrimitive(x) && x != "writer.FileWriter.Flush" }) {
+					writes = true
+				}
+			}
+		}
+		if !writes {
+			continue
+		}
+		n++
+		ok := false
+		for _, b := range fn.Blocks {
+			ifi, isIf := b.Instrs[len(b.Instrs)-1].(*ssa.If)
+			if !isIf || b.Succs[0] == b.Succs[1] || !condMentionsEOF(c, ifi.Cond, 0) {
+				continue
+			}
+			differ := b.Succs[0]
+			if bo, isB := ifi.Cond.(*ssa.BinOp); isB && bo.Op == token.EQL {
+				differ = b.Succs[1]
+			}
+			if edgeDominates(b, differ, site.(ssa.Instruction).Block()) {
+				ok = true
+			}
+		}
+		if !ok {
+			return false
+		}
+	}
+	return n > 0
 }
